@@ -13,6 +13,15 @@
     subject, and subject id and attributes come from the verified claims only." *)
 From HV Require Import Base.Prelude Base.Time C05.Model.
 
+(* ---- the algorithm tables, stated here independently of the model's ---- *)
+
+(** what may appear as `alg` in the header at all: ECDSA, EdDSA, RSA-PSS, RSA PKCS#1 v1.5, HMAC — never "none" *)
+Definition parsable_algs : list string :=
+  ["ES256"; "ES384"; "ES512"; "EdDSA"; "PS256"; "PS384"; "PS512"; "RS256"; "RS384"; "RS512"; "HS256"; "HS384"; "HS512"]%string.
+
+(** allowed when nothing is configured: ECDSA and RSA-PSS only (no PKCS#1 v1.5, no HMAC, no EdDSA) *)
+Definition allowed_by_default : list string := ["ES256"; "ES384"; "ES512"; "PS256"; "PS384"; "PS512"]%string.
+
 (* ---- which configuration is in force: rule level, else mechanism, else default ---- *)
 
 Definition no_expectation : expectation :=
@@ -32,7 +41,7 @@ Definition trusted_issuers (cf : config) : list string :=
   first_set (e_issuers (rule_level cf)) (e_issuers (cf_proto cf)) [cf_md_issuer cf].
 
 Definition allowed_algs (cf : config) : list string :=
-  first_set (e_algs (rule_level cf)) (e_algs (cf_proto cf)) default_allowed_algs.
+  first_set (e_algs (rule_level cf)) (e_algs (cf_proto cf)) allowed_by_default.
 
 Definition expected_audiences (cf : config) : list string :=
   first_set (e_aud (rule_level cf)) (e_aud (cf_proto cf)) [].
@@ -86,10 +95,55 @@ Definition not_issued_in_future (cf : config) (now : Z) (c : claims) : bool :=
 
 Definition claims_acceptable (cf : config) (now : Z) (c : claims) : bool :=
   negb (c_malformed c) &&
-  mem (c_iss c) (trusted_issuers cf) &&
+  negb (String.eqb (c_iss c) "") &&                 (* the token names its issuer ... *)
+  mem (c_iss c) (trusted_issuers cf) &&             (* ... and it is a trusted one *)
   audience_ok cf c &&
   match_scopes (required_scopes cf) (eff_scopes c) &&
   already_valid cf now c && not_expired cf now c && not_issued_in_future cf now c.
+
+(* ---- what the claim decoding and the scope matching strategies mean, declaratively ---- *)
+
+Fixpoint join (sep : ascii) (l : list string) : string :=
+  match l with
+  | [] => EmptyString
+  | [x] => x
+  | x :: r => x ++ String sep (join sep r)
+  end.
+
+Fixpoint has_char (c : ascii) (s : string) : bool :=
+  match s with EmptyString => false | String a r => Ascii.eqb a c || has_char c r end.
+
+(** [l] are the pieces of [s] between the separators: a string claim "a b" carries the values a, b; a scope
+    "foo.bar" has the parts foo, bar *)
+Definition is_split (sep : ascii) (s : string) (l : list string) : Prop :=
+  l <> [] /\ join sep l = s /\ Forall (fun x => has_char sep x = false) l.
+
+(** the scopes a token grants: `scp` if it carries any value, else `scope` *)
+Definition granted_scopes (c : claims) : list string :=
+  match strs_of (c_scp c) with [] => strs_of (c_scope c) | l => l end.
+
+(** hierarchic: a granted scope covers itself and everything below it (foo covers foo.bar and foo.bar.baz) *)
+Definition hier_covers (granted required : string) : Prop :=
+  granted = required \/
+  exists gp rp rest, is_split "." granted gp /\ is_split "." required rp /\ rest <> [] /\ rp = gp ++ rest.
+
+(** wildcard: part by part, `*` stands for any non-empty part; a granted scope with fewer parts must end in `*`,
+    which then also covers everything below (foo.* covers foo.bar and foo.bar.baz, not foo) *)
+Definition part_covers (g r : string) : Prop := g = r \/ (g = "*"%string /\ r <> ""%string).
+
+Definition wild_covers (granted required : string) : Prop :=
+  exists gp rp, is_split "." granted gp /\ is_split "." required rp /\
+    (length gp <= length rp)%nat /\ Forall2 part_covers gp (firstn (length gp) rp) /\
+    ((length gp < length rp)%nat -> last gp EmptyString = "*"%string).
+
+(** what a configured matcher demands of the granted scopes *)
+Definition scopes_satisfied (m : matcher) (granted : list string) : Prop :=
+  match m with
+  | MNoop => True
+  | MExact req => forall r, In r req -> In r granted
+  | MHier req => forall r, In r req -> exists g, In g granted /\ hier_covers g r
+  | MWild req => forall r, In r req -> exists g, In g granted /\ wild_covers g r
+  end.
 
 (* ---- the decision ---- *)
 
@@ -100,7 +154,7 @@ Definition spec_accepts (cf : config) (ks : list jwk) (now : Z) (cr : cred) : op
   match cr with
   | CToken t =>
     let sub := lookup (cf_id_from cf) (c_fields (t_claims t)) in
-    if mem (t_alg t) supported_algs && t_payload_obj t && remote_up cf &&
+    if mem (t_alg t) parsable_algs && t_payload_obj t && remote_up cf &&
        existsb (key_acceptable cf t) (candidate_keys ks t) &&
        claims_acceptable cf now (t_claims t) &&
        negb (String.eqb sub "")
@@ -124,6 +178,17 @@ Definition guard_F3 (cr : cred) : bool :=
   | CToken t => match c_exp (t_claims t) with Some e => (e =? zero_time_unix)%Z | None => false end
   | _ => false
   end.
+
+(** C05-F5 (open): a token WITHOUT issuer is accepted when the empty string is among the trusted issuers, which
+    is the case when no `issuers` are configured and the (unverified) metadata document states no issuer *)
+Definition guard_F5 (cf : config) (cr : cred) : bool :=
+  match cr with
+  | CToken t => String.eqb (c_iss (t_claims t)) "" && mem EmptyString (trusted_issuers cf)
+  | _ => false
+  end.
+
+(** the findings that are open in the code as it is *)
+Definition open_guards (cf : config) (cr : cred) : bool := guard_F3 cr || guard_F5 cf cr.
 
 (** C05-F2 (repaired by f16c3cc): an `nbf` or `iat` claim beyond int64 wrapped around to "not set" *)
 Definition guard_F2 (cr : cred) : bool :=
